@@ -41,6 +41,10 @@ class BaseGotranODECodePrinter(StrPrinter):
         relop = relop2str[expr.rel_op]
         return f"{relop}({lhs}, {rhs})"
 
+    def _print_Exp1(self, expr):
+        # Euler's number is not a constant of the grammar
+        return "exp(1)"
+
     def _print_Or(self, expr):
         return f"Or({', '.join(self._print(a) for a in expr.args)})"
 
